@@ -155,6 +155,14 @@ func (h *harness) dictionary() {
 		r.Count("dict:strings")
 		return !r.Stop()
 	})
+	// white space, control characters and DEL: unquoted, quoted, alone
+	for _, c := range []byte("\x00\x01\x08\t\n\v\f\r\x0e\x1f \x7e\x7f") {
+		for _, v := range []string{string([]byte{c}), "\\" + string([]byte{c}), "a" + string([]byte{c}), "a\\" + string([]byte{c}), "a\\" + string([]byte{c}) + "b", "?\\" + string([]byte{c}) + "*"} {
+			h.begin()
+			h.dictValue(v, false)
+			r.Count("dict:strings-control")
+		}
+	}
 	// longer strings over the quoting/wildcard core
 	n2 := h.cfg.N(6, 8)
 	enumerate("a\\*?-", n2, func(s string) bool {
